@@ -150,6 +150,12 @@ func Gen(r *rand.Rand, o GenOpts) []string {
 	if o.Mix == "C04" || o.Mix == "C07" {
 		cfg.FcCap = []int{200, 200, 200, 20000}[r.Intn(4)]
 	}
+	// C03: one scenario in five has a cheater set of weight >= 1/3 (up to < 1/2); the roots cache is then
+	// disabled so that GetFrameRoots returns key order, which is the order the model uses
+	heavyCheat := o.Mix == "C03" && r.Intn(5) == 0
+	if heavyCheat {
+		cfg.RootsNum, cfg.RootsFrames = 0, 0
+	}
 	epoch0 := uint32(1 + r.Intn(3))
 	if r.Intn(10) == 0 {
 		epoch0 = uint32(1 + r.Intn(1000000))
@@ -162,12 +168,27 @@ func Gen(r *rand.Rand, o GenOpts) []string {
 	if o.Mix == "C09" {
 		nseal = 1 + r.Intn(3)
 	}
+	// C09 "jump" family: every decision seals (block 1 of many consecutive epochs) and one light validator lags
+	// far behind and then references all heads, so that its event occupies several root slots at once
+	jump := o.Mix == "C09" && r.Intn(3) == 0
+	if jump {
+		nseal = 10
+		cfg.RootsNum, cfg.RootsFrames = []uint{50, 1000}[r.Intn(2)], []int{5, 100}[r.Intn(2)]
+	} else if o.Mix == "C09" && r.Intn(2) == 0 {
+		cfg.RootsNum, cfg.RootsFrames = []uint{50, 1000}[r.Intn(2)], []int{5, 100}[r.Intn(2)]
+	}
 	for k := 0; k < nseal; k++ {
 		blk := []int{1, 1, 2, 2, 3, 5}[r.Intn(6)]
 		if o.Mix == "C09" {
 			blk = []int{1, 1, 2, 3}[r.Intn(4)]
 		}
-		pv = mutateVals(r, pv)
+		if jump {
+			blk = 1
+		}
+		if !jump || r.Intn(4) == 0 {
+			pv = mutateVals(r, pv)
+		}
+		_ = pv
 		policy = append(policy, SealRule{Epoch: epoch0 + uint32(k), Block: blk, Vals: pv})
 	}
 	ref := NewInst(cfg, epoch0, vals, policy)
@@ -194,6 +215,7 @@ func Gen(r *rand.Rand, o GenOpts) []string {
 		side     map[uint32]int // partition side
 		parted   bool
 		pParent  float64
+		deep     uint32 // deeply lagging validator (0 = none)
 	}
 	newEpochState := func() *epochState {
 		v := ref.Validators()
@@ -208,7 +230,7 @@ func Gen(r *rand.Rand, o GenOpts) []string {
 			var cw uint64
 			for _, k := range r.Perm(len(es.ids)) {
 				id := es.ids[k]
-				if (cw+uint64(es.w[id]))*3 < es.total && r.Intn(2) == 0 {
+				if ((cw+uint64(es.w[id]))*3 < es.total || (heavyCheat && (cw+uint64(es.w[id]))*2 < es.total)) && r.Intn(2) == 0 {
 					es.cheater[id] = true
 					cw += uint64(es.w[id])
 				}
@@ -221,6 +243,17 @@ func Gen(r *rand.Rand, o GenOpts) []string {
 			es.side[id] = r.Intn(2)
 		}
 		es.pParent = 0.5 + 0.5*r.Float64()
+		if jump {
+			for id := range es.lag {
+				delete(es.lag, id)
+			}
+			// the lightest validator lags deeply if the others keep a quorum without it
+			lightest := es.ids[len(es.ids)-1]
+			if uint64(es.w[lightest])*3 < es.total && len(es.ids) >= 3 {
+				es.deep = lightest
+			}
+			es.pParent = 0.4 + 0.6*r.Float64()
+		}
 		if o.Mix == "C03" { // more decisions, so that forks end up below an Atropos
 			es.pParent = 0.75 + 0.25*r.Float64()
 			for id := range es.lag {
@@ -265,6 +298,9 @@ func Gen(r *rand.Rand, o GenOpts) []string {
 			if es.lag[cr] && r.Intn(6) != 0 && tries < 20 {
 				continue
 			}
+			if es.deep != 0 && cr == es.deep && r.Intn(12) != 0 && tries < 20 {
+				continue
+			}
 			break
 		}
 		d := &EvDef{N: len(evs), Epoch: ref.Epoch(), Creator: cr}
@@ -295,10 +331,10 @@ func Gen(r *rand.Rand, o GenOpts) []string {
 		// other parents: one event per other validator
 		for _, k := range r.Perm(len(es.ids)) {
 			v := es.ids[k]
-			if v == cr || len(es.own[v]) == 0 || r.Float64() > es.pParent {
+			if v == cr || len(es.own[v]) == 0 || (r.Float64() > es.pParent && cr != es.deep) {
 				continue
 			}
-			if es.parted && es.side[v] != es.side[cr] {
+			if es.parted && es.side[v] != es.side[cr] && cr != es.deep {
 				continue
 			}
 			own := es.own[v]
@@ -519,6 +555,7 @@ func Gen(r *rand.Rand, o GenOpts) []string {
 		}
 		if it.ev < 0 {
 			push(it.reset)
+			push([]string{"W"})
 			ne, _ := strconv.Atoi(it.reset[1])
 			cur = &seen{epoch: uint32(ne), own: map[uint32][]int{}}
 			for _, v := range BuildVals(parseVW(it.reset[2:])).SortedIDs() {
@@ -647,9 +684,37 @@ func Gen(r *rand.Rand, o GenOpts) []string {
 					pushBoth2(&main, &alt, g, o.Mix != "C09" || altStarted)
 				}
 			}
+			if o.Mix == "C08" {
+				// rejected / ghost events and speculative builds (kept in the never-restarted run too),
+				// often followed directly by a restart
+				var inj []string
+				switch r.Intn(8) {
+				case 0:
+					if f, ok := wrongFrame(e); ok {
+						inj = []string{"X", fmt.Sprint(e.def.N), fmt.Sprint(f)}
+					}
+				case 1:
+					inj = ghost()
+				case 2:
+					inj = arbBuild("b")
+				}
+				if inj != nil {
+					pushBoth(inj)
+					if r.Intn(2) == 0 {
+						main = append(main, []string{"R"})
+					}
+				}
+			}
+		}
+		if o.Mix == "C07" && r.Intn(10) == 0 {
+			pushBoth([]string{"R"}) // a restart after injected operations, in both runs
+			builds = 0
 		}
 		if !skipP {
 			push([]string{"P", fmt.Sprint(e.def.N)})
+			if e.sealed || r.Intn(25) == 0 {
+				push([]string{"W"})
+			}
 		}
 		cur.own[e.def.Creator] = append(cur.own[e.def.Creator], e.def.N)
 		cur.all = append(cur.all, e.def.N)
@@ -666,7 +731,7 @@ func Gen(r *rand.Rand, o GenOpts) []string {
 		main = nil
 		for _, g := range alt {
 			main = append(main, g)
-			if g[0] == "P" {
+			if g[0] == "P" || g[0] == "X" || g[0] == "Y" || g[0] == "b" {
 				main = append(main, []string{"R"})
 			}
 		}
@@ -695,7 +760,14 @@ func idOf(d *EvDef) hash.Event {
 // shuffleScript returns a random parents-first order of each epoch segment of the script.
 func shuffleScript(r *rand.Rand, script []item, evs []*genEv) []item {
 	var out []item
+	// adversarial variant: the events of one validator are delivered as late as parents-first allows
+	// (decisions pile up and are taken in one call when they finally arrive)
+	delayMode := r.Intn(4) == 0
 	flush := func(seg []item) {
+		delayed := uint32(0)
+		if delayMode && len(seg) > 0 {
+			delayed = evs[seg[r.Intn(len(seg))].ev].def.Creator
+		}
 		done := map[int]bool{}
 		inSeg := map[int]bool{}
 		for _, it := range seg {
@@ -711,11 +783,28 @@ func shuffleScript(r *rand.Rand, script []item, evs []*genEv) []item {
 						ok = false
 					}
 				}
+				if ok && delayed != 0 && evs[it.ev].def.Creator == delayed {
+					ok = false // only when nothing else is ready (second pass below)
+				}
 				if ok {
 					ready = append(ready, k)
 				}
-				if len(ready) >= 6 { // keep the shuffle local
+				if len(ready) >= 6 && delayed == 0 { // keep the shuffle local
 					break
+				}
+			}
+			if len(ready) == 0 { // only delayed events are ready
+				for k, it := range rest {
+					ok := true
+					for _, p := range evs[it.ev].def.Parents {
+						if inSeg[p] && !done[p] {
+							ok = false
+						}
+					}
+					if ok {
+						ready = append(ready, k)
+						break
+					}
 				}
 			}
 			k := ready[r.Intn(len(ready))]
